@@ -268,6 +268,8 @@ class TypeGen:
                     return r.pick(["(%s & { zz: 1 })['k']", "Required<%s>['k']", "(%s)['k']", "Pick<%s, 'k'>['k']"]) % holder
             else:
                 return "{ k: %s, other: string }['k']" % inner
+            if r.chance(0.2):
+                return "%s[('k')]" % holder        # a parenthesised index type is the same index
             return "%s['k']" % holder
         if k == "scoped":
             # handled by the caller through `scope` wrapping; fall back to alias
@@ -484,7 +486,7 @@ class ExprGen:
         if k == "index-member":
             # members of every kind (property, method, getter, optional method, call signature) selected by key
             members = "onPick(id: number): void; label: string; get g(): %s; opt?(): void; p: %s; 'quoted-m'(): number" % (self.expr(d + 1), self.expr(d + 1))
-            idx = r.pick(["['onPick']", "['onPick' | 'label']", "[string]", "['g']", "['opt']", "['p' | 'onPick']", "['quoted-m']", "['label']"])
+            idx = r.pick(["['onPick']", "['onPick' | 'label']", "[string]", "['g']", "['opt']", "['p' | 'onPick']", "['quoted-m']", "['label']", "[('label')]", "[('p' | 'label')]"])
             form = r.below(4)
             if form == 0:
                 return "{ %s }%s" % (members, idx)
